@@ -1,0 +1,20 @@
+//go:build verif
+
+// Contracts for package wss (comment-only; read by /verif/govc).
+
+package wss
+
+//@ func (wssTran).Scheme
+//@   ensures result == "wss"
+//@
+//@ func (wssTran).NewDialer
+//@   ghost d = result0 at call:NewDialer#1
+//@   ghost e = result1 at call:NewDialer#1
+//@   before call:NewDialer#1 assert arg0 == addr && arg1 == sock
+//@   ensures result0 == d && result1 == e
+//@
+//@ func (wssTran).NewListener
+//@   ghost l = result0 at call:NewListener#1
+//@   ghost e = result1 at call:NewListener#1
+//@   before call:NewListener#1 assert arg0 == addr && arg1 == sock
+//@   ensures result0 == l && result1 == e
